@@ -22,7 +22,7 @@ TECHNIQUE = "Lean 4 proof (relational step over validated choices, invariant by 
 
 
 def generate(rng, tier):
-    n, steps = {"quick": (40, 25), "thorough": (800, 50), "search": (200, 30)}.get(tier, (40, 25))
+    n, steps = {"quick": (100, 25), "thorough": (800, 50), "search": (200, 30)}.get(tier, (40, 25))
     cases = []
     for i in range(n):
         kind = KINDS[i % len(KINDS)]
